@@ -21,7 +21,7 @@ def gen(rng):
     else: c = rng.randint(lo, hi)
     kind = rng.choice(['raw', 'raw', 'value', 'binstr', 'hexstr', 'hexshort'])
     if kind == 'hexshort': c = rng.getrandbits(rng.randint(1, max(1, n - 2)))      # (a non-negative code of any length below the word)
-    return {'f': [s, n, nf], 'c': c, 'o': rng.choice(OMODES), 'r': rng.choice(RMODES), 'kind': kind, 'route': rng.choice(['ctor', 'call', 'set_val'])}
+    return {'f': [s, n, nf], 'c': c, 'o': rng.choice(OMODES), 'r': rng.choice(RMODES), 'kind': kind, 'route': rng.choice(['ctor', 'call', 'set_val', 'widened'])}
 
 def run_cases(cases, res):
     fx = lib.impl(); import numpy as np
@@ -39,15 +39,24 @@ def run_cases(cases, res):
             elif kind == 'binstr': val, raw = '0b' + c11.py_bin(n, code), True
             elif kind == 'hexshort': val, raw = '0x%X' % code, True      # the digits of a non-negative code without leading zeros (what hex(padding=False) renders)
             else: val, raw = '0x' + c11.py_hex(n, code), True
-            if c['route'] == 'ctor': x = fx.Fxp(val, s, n, nf, raw=raw, **kw)
+            if c['route'] == 'widened':
+                # the object was created NARROW (40 bits, the same n_frac) and widened by resize(n_word=): an element write and the operators
+                # then behave as on an object built at the wide format
+                x0 = fx.Fxp([0, 1 if n > 1 else 0], s, 40, nf, raw=True, **kw); x0.resize(n_word=n)
+                x0.set_val(val, raw=raw, index=0)
+                xw = x0
+                x = x0[0]
+            elif c['route'] == 'ctor': x = fx.Fxp(val, s, n, nf, raw=raw, **kw)
             else:
                 x = fx.Fxp(None, s, n, nf, **kw)
                 if c['route'] == 'set_val' or raw: x.set_val(val, raw=raw)
                 else: x(val)
             got = lib.codes_of(x)[0]
-            obs = {'code': got, 'st': lib.status3(x)[:2], 'extp': x.status.get('extended_prec'), 'bin': x.bin(), 'hex': x.hex(), 'dtype': str(np.asarray(x.val).dtype)}
+            st_of = xw if c['route'] == 'widened' else x      # (the flags of an element write belong to the array that was written)
+            obs = {'code': got, 'st': lib.status3(st_of)[:2], 'extp': st_of.status.get('extended_prec'), 'bin': x.bin(), 'hex': x.hex(), 'dtype': str(np.asarray(x.val).dtype)}
             y = fx.Fxp(hi if got != hi else lo, s, n, nf, raw=True)
-            obs['bit'] = {'~': lib.codes_of(~x)[0], '&': lib.codes_of(x & y)[0], '|': lib.codes_of(x | y)[0], '^': lib.codes_of(x ^ y)[0]}
+            if c['route'] == 'widened': obs['bit'] = {'~': lib.codes_of(~xw)[0], '&': lib.codes_of(xw & y)[0], '|': lib.codes_of(xw | y)[0], '^': lib.codes_of(xw ^ y)[0]}
+            else: obs['bit'] = {'~': lib.codes_of(~x)[0], '&': lib.codes_of(x & y)[0], '|': lib.codes_of(x | y)[0], '^': lib.codes_of(x ^ y)[0]}
             obs['ycode'] = lib.codes_of(y)[0]
         except Exception as e:
             res.fail(c, 'C18: storing / rendering a wide value raised %s' % lib.exc_name(e), got=str(e)[:300]); continue
@@ -83,8 +92,13 @@ def gen_array(rng):
         if k < 0.4: cs.append(rng.randint(lo, hi))
         elif k < 0.6: cs.append(rng.choice([lo, hi, lo - 1, hi + 1, 0, -1, 5]))
         else: cs.append(rng.choice([1, -1]) * rng.getrandbits(rng.randint(1, 2 * n)))
+    if rng.random() < 0.25:
+        # a sequence mixing integers of [2^63, 2^64) with negative ones, nothing beyond 64 bits (NumPy would promote such a list to float64)
+        cs = [rng.choice([2 ** 63 + rng.getrandbits(40) * 2 + 1, 2 ** 64 - rng.randint(1, 9), 2 ** 63 + 1]) for _ in range(rng.randint(1, 2))] + [-rng.randint(1, 9) for _ in range(rng.randint(1, 2))]
     rng.shuffle(cs)
-    return {'f': base['f'], 'cs': cs, 'o': base['o'], 'r': base['r'], 'kind': rng.choice(['raw', 'value']), 'route': base['route']}
+    route = base['route'] if base['route'] != 'widened' else 'ctor'
+    if rng.random() < 0.3: route = rng.choice(['slice', 'slice_step', 'mask'])      # (item assignment of the whole sequence)
+    return {'f': base['f'], 'cs': cs, 'o': base['o'], 'r': base['r'], 'kind': rng.choice(['raw', 'value']), 'route': route}
 
 def run_array_cases(cases, res):
     fx = lib.impl(); import numpy as np
@@ -94,6 +108,11 @@ def run_array_cases(cases, res):
         kw = dict(rounding=c['r'], overflow=c['o']); raw = c['kind'] == 'raw'; val = list(c['cs'])
         try:
             if c['route'] == 'ctor': x = fx.Fxp(val, s, n, nf, raw=raw, **kw)
+            elif c['route'] in ('slice', 'slice_step', 'mask'):
+                x = fx.Fxp([0] * len(val), s, n, nf, **kw)
+                idx_ = slice(None) if c['route'] == 'slice' else (slice(None, None, 1) if c['route'] == 'slice_step' else np.array([True] * len(val)))
+                if raw: x.set_val(val, raw=True, index=idx_)
+                else: x[idx_] = val
             else:
                 x = fx.Fxp(None, s, n, nf, **kw)
                 if c['route'] == 'set_val' or raw: x.set_val(val, raw=raw)
